@@ -121,6 +121,7 @@ class Engine(HeapMixin, ExprMixin, AccessMixin, CallMixin, StmtMixin, BytesMixin
     self.globals_used = set()
     self.ghost_hits = set()
     self.anchor_maps = {}
+    self.degraded = []        # parts of the (changed) function the sidecar does not cover: handled by over-approximation or skipped
     self.anchor_drift = []
     self.assumes = []
 
@@ -194,6 +195,7 @@ class Engine(HeapMixin, ExprMixin, AccessMixin, CallMixin, StmtMixin, BytesMixin
     res.obligations = self.obligations
     res.dropped = sorted(self.dropped)
     res.anchor_drift = list(self.anchor_drift)
+    res.degraded = list(self.degraded)
     res.inlined = sorted(self.inlined)
     res.externs = sorted(self.externs_used)
     res.contracts = sorted(self.contracts_used)
@@ -226,7 +228,8 @@ class Engine(HeapMixin, ExprMixin, AccessMixin, CallMixin, StmtMixin, BytesMixin
       elif a in spec.params:
         ty = spec.params[a]
       else:
-        raise Unsupported('parameter %s of %s has no declared type' % (a, name))
+        self.degraded.append('parameter %s of %s has no declared type: taken as an opaque value' % (a, name))
+        ty = Ty('any')
       params[a] = self.fresh_val(st, ty, a)
     chain = []
     fid = 'F_' + name
@@ -353,10 +356,10 @@ class Engine(HeapMixin, ExprMixin, AccessMixin, CallMixin, StmtMixin, BytesMixin
         raise Unsupported('%s escapes the function body' % kind)
     for y in spec.yields:
       if (spec.name, y['at']) not in self.yield_hits:
-        raise Unsupported('yield anchor %r not found in %s (source drift)' % (y['at'], name))
+        self.degraded.append('yield anchor %r not found in %s (source drift): its assertions were not checked' % (y['at'], name))
     for g in spec.ghost:
       if (spec.name, g.get('after', g.get('before')).strip()) not in self.ghost_hits:
-        raise Unsupported('ghost anchor %r not found in %s (source drift)' % (g.get('after', g.get('before')), name))
+        self.degraded.append('ghost anchor %r not found in %s (source drift): its ghost block was skipped' % (g.get('after', g.get('before')), name))
     if res.exit_reached == 0 and not spec.no_exit:
       raise Unsupported('vacuous: no feasible path reaches an exit of %s' % name)
 
@@ -473,8 +476,12 @@ class Engine(HeapMixin, ExprMixin, AccessMixin, CallMixin, StmtMixin, BytesMixin
         ys = y
         break
     if ys is None:
-      raise Unsupported('yield point %s at line %s of %s has no yields entry (%s)' % (name, line, cx.qual, src[:60]))
-    self.yield_hits.add((spec.name, ys['at']))
+      # a scheduling point the sidecar does not know (new code): the default treatment -- the segment ends here, other
+      # greenlets may do anything their guarantees allow -- is an over-approximation
+      self.degraded.append('yield point %s at line %s of %s has no yields entry (%s): default rely/guarantee treatment' % (name, line, cx.qual, src[:60]))
+      ys = {'at': src[:30]}
+    else:
+      self.yield_hits.add((spec.name, ys['at']))
     if self.lock_depth:
       raise Unsupported('yield point %s inside a lock region (line %s)' % (name, line))
     key = ys['at'][:30]
